@@ -185,6 +185,11 @@ def sc_inherit(rng):
         got["tag"] = ask(T1)
         got["interval"] = (t_call, t_ret)
         got["t0"] = ask(T0)
+        # a worker that is re-used: inside a block of its own it inherits from a thread that never had a runtime -
+        # it gets the handlers that thread has at that moment, i.e. the defaults
+        with rt.handle(T1, tagger("own")):
+            rt.inherit(threading.Thread(target=lambda: None, name="never-started"))
+            got["reinherit"] = ask(T1)
 
     def verify():
         if "tag" not in got:
@@ -199,6 +204,8 @@ def sc_inherit(rng):
             return f"inherit() between events {t_call}..{t_ret} gave handler {got['tag']!r}; the parent had {sorted(allowed)} current in that window (changes [pre, post, handler]: {changes})"
         if got["t0"] != "default0":
             return f"inherited runtime lost the default handler: {got['t0']!r}"
+        if got.get("reinherit", "TypeError") != "TypeError":
+            return f"a worker inside its own block inherited from a thread without any runtime and is still served by {got['reinherit']!r} (that thread has only the defaults)"
         return None
 
     return [parent, child], verify, {}
